@@ -46,6 +46,16 @@ func (s *SpyJWKS) Get(ctx context.Context, cfg *oidcv1.OIDCConfig) (jwk.Set, err
 	return s.Inner.Get(ctx, cfg)
 }
 
+// liveJWKS serves the provider's currently published key set (parsed afresh on every lookup).
+type liveJWKS struct{ p *IdP }
+
+func (l liveJWKS) Get(context.Context, *oidcv1.OIDCConfig) (jwk.Set, error) {
+	l.p.mu.Lock()
+	doc := JWKS(l.p.Keys)
+	l.p.mu.Unlock()
+	return jwk.Parse([]byte(doc))
+}
+
 // WorldOpts are the knobs of a simulated deployment with one OIDC filter.
 type WorldOpts struct {
 	Store        string // "memory" | "redis"
@@ -63,8 +73,10 @@ type WorldOpts struct {
 	ATPreamble   string
 	CallbackURI  string
 	AppHost      string
-	ViaServer    bool // go through server.ExtAuthZFilter.Check (real clock, real generator)
-	RealFactory  bool // with ViaServer: stores come from oidc.NewSessionStoreFactory(cfg).PreRun(), as in cmd/main.go
+	ViaServer    bool   // go through server.ExtAuthZFilter.Check (real clock, real generator)
+	RealFactory  bool   // with ViaServer: stores come from oidc.NewSessionStoreFactory(cfg).PreRun(), as in cmd/main.go
+	LiveJWKS     bool   // the key source answers with the provider's CURRENT published keys (models a fetcher that has refreshed)
+	LogoutURI    string // explicit logout redirect URI (also under discovery)
 	TriggerRules []*configv1.TriggerRule
 	AuthURI      string // override (e.g. with its own query)
 	// CfgHook may replace the filter configuration (e.g. after passing it through the real loader).
@@ -86,9 +98,11 @@ type World struct {
 	Filter  *server.ExtAuthZFilter
 	Factory oidc.SessionStoreFactory
 	Full    *configv1.Config
-	cancel  context.CancelFunc
-	AppHost string
-	Scheme  string
+	// ExpectLogoutURI is where a logout must redirect to: the configured URI, else the discovered one.
+	ExpectLogoutURI string
+	cancel          context.CancelFunc
+	AppHost         string
+	Scheme          string
 
 	mu     sync.Mutex
 	pos    int
@@ -158,8 +172,13 @@ func NewWorld(c *Case, o WorldOpts) *World {
 	}
 	if o.Logout {
 		cfg.Logout = &oidcv1.LogoutConfig{Path: "/logout"}
+		w.ExpectLogoutURI = w.IdP.EndSessionURL()
 		if !o.Discovery {
 			cfg.Logout.RedirectUri = w.IdP.EndSessionURL()
+		}
+		if o.LogoutURI != "" {
+			cfg.Logout.RedirectUri = o.LogoutURI
+			w.ExpectLogoutURI = o.LogoutURI
 		}
 	}
 	if o.Store == "redis" {
@@ -211,6 +230,9 @@ func NewWorld(c *Case, o WorldOpts) *World {
 		go func() { _ = prov.ServeContext(ctx) }()
 	}
 	w.JWKS = &SpyJWKS{Inner: prov}
+	if o.LiveJWKS {
+		w.JWKS.Inner = liveJWKS{w.IdP}
+	}
 	w.JWKS.Intercept = func() string { return w.intercept("jwks", "Get", "") }
 	w.Gen = oidc.NewRandomGenerator()
 	if o.ViaServer && o.RealFactory {
@@ -255,6 +277,9 @@ func (w *World) intercept(kind, op, id string) string {
 	p := w.pos
 	w.pos++
 	if m, ok := w.Faults[p]; ok {
+		if m == "redis" && kind != "store" {
+			m = "before" // an outage below the store only means something for store calls
+		}
 		w.Fired = append(w.Fired, Fired{Pos: p, Kind: kind, Op: op, Mode: m})
 		return m
 	}
